@@ -441,13 +441,23 @@ func ruleSchemaEnum(c *Ctx, r *Rep) {
 			}
 		}
 	}
+	mapMiss := map[*ssa.Function]bool{}
+	for _, t := range c.gnMapTables() {
+		if tables[t.fn] == nil {
+			tables[t.fn] = map[string]bool{}
+		}
+		for l := range t.rows {
+			tables[t.fn][l] = true
+		}
+		mapMiss[t.fn] = t.missIsError
+	}
 	var fns []*ssa.Function
 	for f := range tables {
 		fns = append(fns, f)
 	}
 	sort.Slice(fns, func(i, j int) bool { return c.FuncKey(fns[i]) < c.FuncKey(fns[j]) })
 	for _, fn := range fns {
-		defErr := defaultReturnsError(fn)
+		defErr := defaultReturnsError(fn) || mapMiss[fn]
 		for _, e := range enum {
 			has := tables[fn][e]
 			r.Check(has || defErr, "general-name|"+c.FuncKey(fn)+"|"+e, c.FnPos(fn), "a case for "+e+", or the default path returns an error", sprintf("case=%v default-error=%v", has, defErr))
@@ -479,6 +489,25 @@ func ruleSchemaEnum(c *Ctx, r *Rep) {
 		}
 	}
 	if lookup == nil {
+		if lf := c.rdnLookupFunc(); lf != nil {
+			// the lookup written another way: folded for a name no table has, it must answer with an error; and for every
+			// name of the schema with an OID
+			fo := c.newFolder()
+			out, ok := fo.Fold(lf, []*fval{fconst(constant.MakeString("\x00no-such-attribute"))}, 0)
+			if !ok {
+				r.Undecided("shape:rdn-lookup|"+c.FuncKey(lf), c.FnPos(lf), "the lookup cannot be folded: "+fo.why)
+				return
+			}
+			r.Check(len(out) == 2 && !out[1].isNil, "rdn-unknown-is-error", c.FnPos(lf), "a name the table does not have is answered with an error", sprintf("error is nil: %v", len(out) == 2 && out[1].isNil))
+			for _, name := range renum {
+				// a name the schema allows is answered one way or the other (an OID, or an error: never neither)
+				fo := c.newFolder()
+				out, ok := fo.Fold(lf, []*fval{fconst(constant.MakeString(name))}, 0)
+				answered := ok && len(out) == 2 && (!out[1].isNil || out[0].isList && len(out[0].list) > 0)
+				r.Check(answered, "rdn-enum|"+name, c.FnPos(lf), "a name the schema allows is answered with an OID or with an error", sprintf("folded: %v %s", ok, fo.why))
+			}
+			return
+		}
 		r.Undecided("anchor:rdn-lookup", "", "no func(string) (ObjectIdentifier, error) with a comma-ok table lookup")
 		return
 	}
